@@ -543,7 +543,11 @@ func runCase(r *lib.Run, idx int, long bool) {
 		}
 	}
 	r.Count("scripts", 1)
-	r.Case(fmt.Sprintf("%s-%s", s.opsString(), s.Chains[len(s.Chains)-1][len(s.Chains[len(s.Chains)-1])-1].Block.Hash))
+	finalTip := "empty"
+	if fc := s.Chains[len(s.Chains)-1]; len(fc) > 0 {
+		finalTip = fc[len(fc)-1].Block.Hash.String()
+	}
+	r.Case(fmt.Sprintf("%s-%s", s.opsString(), finalTip))
 	if idx < 2 || long {
 		r.Sample(map[string]any{"case": idx, "long": long, "script": s.opsString(), "commits_logged": total - base, "crash_images": total - base + 1})
 	}
